@@ -341,6 +341,19 @@ func (e *Exec) objValue(obj types.Object, c *Ctx) Term {
 // may have written it through the pointer), writes update it.
 func (e *Exec) escapedValue(st *State, key string) (Term, bool) {
 	p, ok := st.vars["&addr!"+key]
+	if ok && p.T.K == KRef && p.T.Name != "" {
+		// a struct local whose address was taken: its value is what the heap object holds now
+		sty := &Type{K: KStruct, Name: p.T.Name, St: p.T.St, Subst: p.T.Subst}
+		var args []string
+		for _, f := range e.fieldsOf(sty) {
+			h := e.heapArr(st, p.T.Name, f)
+			args = append(args, fmt.Sprintf("(select %s %s)", h.S, p.S))
+		}
+		if len(args) == 0 {
+			args = []string{"0"}
+		}
+		return Term{fmt.Sprintf("(mk!%s %s)", e.Sort(sty), strings.Join(args, " ")), sty}, true
+	}
 	if !ok || p.T.K != KRef || p.T.Name != "" || p.T.Elem == nil {
 		return Term{}, false
 	}
@@ -351,6 +364,13 @@ func (e *Exec) escapedValue(st *State, key string) (Term, bool) {
 
 func (e *Exec) escapedStore(st *State, key string, v Term) {
 	p, ok := st.vars["&addr!"+key]
+	if ok && p.T.K == KRef && p.T.Name != "" && v.T != nil && v.T.K == KStruct {
+		for _, f := range e.fieldsOf(v.T) {
+			h := e.heapArr(st, p.T.Name, f)
+			e.set(st, heapKey(p.T.Name, f.Name), Term{fmt.Sprintf("(store %s %s (%s!%s %s))", h.S, p.S, e.Sort(v.T), f.Name, v.S), h.T})
+		}
+		return
+	}
 	if !ok || p.T.K != KRef || p.T.Name != "" || p.T.Elem == nil {
 		return
 	}
@@ -549,6 +569,11 @@ func (e *Exec) unary(v *ast.UnaryExpr, c *Ctx) Term {
 		}
 		// address of a local struct variable: the variable is moved to a fresh heap object (it escapes)
 		if id, ok := unparen(v.X).(*ast.Ident); ok && !c.spec {
+			if obj := c.fr.info.Uses[id]; obj != nil {
+				if p, ok := c.st.vars["&addr!"+e.keyOf(obj)]; ok && p.T.K == KRef && p.T.Name != "" {
+					return p
+				}
+			}
 			val := e.eval(id, c)
 			if val.T.K == KStruct {
 				r := e.alloc(c.st, shortStructName(val.T.Name))
@@ -556,8 +581,13 @@ func (e *Exec) unary(v *ast.UnaryExpr, c *Ctx) Term {
 					h := e.heapArr(c.st, val.T.Name, f)
 					e.set(c.st, heapKey(val.T.Name, f.Name), Term{fmt.Sprintf("(store %s %s (%s!%s %s))", h.S, r, e.Sort(val.T), f.Name, val.S), h.T})
 				}
-				e.note("address of local struct %s: moved to a fresh heap object (later uses of the local by value are not linked)", id.Name)
-				return Term{r, &Type{K: KRef, Name: val.T.Name, St: val.T.St, Subst: val.T.Subst, G: ptrTo(val.T.G)}}
+				rt := Term{r, &Type{K: KRef, Name: val.T.Name, St: val.T.St, Subst: val.T.Subst, G: ptrTo(val.T.G)}}
+				if obj := c.fr.info.Uses[id]; obj != nil {
+					if k := "&addr!" + e.keyOf(obj); c.st.vars[k].S == "" {
+						c.st.vars[k] = rt // from now on the variable IS that heap object: reads and writes of it go through the heap
+					}
+				}
+				return rt
 			}
 		}
 		// address of a local (non-struct) variable: one opaque pointer per variable
